@@ -139,10 +139,86 @@ func cmdSelftest(args []string) int {
 		}
 		check(sawWrite && !sawReadAsWrite, "global taint: write to a package-level map seen in BadWritesTable only")
 	}
+	// flattened view: a helper's exits pair only with the matching arm of its caller's test
+	if vc := c.Method("", "conn", "ViewCaller"); vc == nil {
+		check(false, "fixture ViewCaller missing")
+	} else {
+		fl := flatOf(vc)
+		check(len(fl.Funcs()) >= 3, fmt.Sprintf("flattened view splices step and exchange into ViewCaller (functions in view: %d)", len(fl.Funcs())))
+		outcomes := map[string]int{}
+		enumPaths(vc, 1, 1000, func(p CPath) {
+			ret, ok := p.Last().(*ssa.Return)
+			if !ok {
+				return
+			}
+			k, _ := constInt(p.Resolve(ret.Results[0]))
+			bumped := false
+			for _, in := range p.Instrs() {
+				if st, ok := in.(*ssa.Store); ok && p.AP(st.Addr).SelString() == "calls" {
+					bumped = true
+				}
+			}
+			outcomes[fmt.Sprintf("ret=%d bumped=%v", k, bumped)]++
+		})
+		// feasible: empty input → 1 without bump; short reply → 1 with bump; ok → 0 with bump. Never 0 without bump, never more.
+		check(outcomes["ret=1 bumped=false"] == 1 && outcomes["ret=1 bumped=true"] == 1 && outcomes["ret=0 bumped=true"] == 1 && len(outcomes) == 3, fmt.Sprintf("path-sensitive enumeration through spliced helpers: %v", outcomes))
+	}
+	// loop runs: three spellings of "bytes 0..N-1 are 1,2,…,N then byte N is N", one that stops short, one stale read
+	for _, tc := range []struct {
+		m    string
+		want bool
+	}{{"FillIndex", true}, {"FillRange", true}, {"FillHelper", true}, {"BadFillShort", false}} {
+		fn := c.Method("", "Ser", tc.m)
+		if fn == nil {
+			check(false, "fixture "+tc.m+" missing")
+			continue
+		}
+		evs, why := extractEvents(c, fn, nil)
+		okAll, nOK := true, 0
+		for _, le := range evs {
+			if !le.OK {
+				continue
+			}
+			nOK++
+			var n *Lin
+			for _, ev := range le.eventsOf("wire", "app") {
+				if ev.Idx != nil && ev.V != nil && linEq(*ev.Idx, *ev.V) {
+					x := *ev.Idx
+					n = &x
+				}
+			}
+			good := false
+			if n != nil {
+				for _, ev := range le.eventsOf("loop:wire", "app") {
+					if run, w := runOf(ev); w == "" && linEq(run.Idx0, linConst(0)) && linEq(run.V0, linConst(1)) && run.VAdv == 1 {
+						if cov, _ := run.coversUpTo(*n, le.Cons); cov {
+							good = true
+						}
+					}
+				}
+			}
+			okAll = okAll && good
+		}
+		check(nOK > 0 && okAll == tc.want, fmt.Sprintf("loop run of %s: recognised=%v, want %v %s", tc.m, okAll, tc.want, why))
+	}
+	if fn := c.Method("", "Ser", "BadStale"); fn != nil {
+		evs, _ := extractEvents(c, fn, nil)
+		stale := false
+		for _, le := range evs {
+			for _, ev := range le.Events {
+				if le.OK && ev.Kind == "stale" {
+					stale = true
+				}
+			}
+		}
+		check(stale, "stale read: BadStale reads a prepended byte before writing it")
+	} else {
+		check(false, "fixture BadStale missing")
+	}
 	if fails > 0 {
 		fmt.Printf("selftest: %d failure(s)\n", fails)
 		return 1
 	}
-	fmt.Println("selftest: ok (linear core, bit vectors, lenflow good/bad fixtures, predicates, bit provenance, global taint)")
+	fmt.Println("selftest: ok (linear core, bit vectors, lenflow good/bad fixtures, predicates, bit provenance, global taint, flattened view, loop runs, stale reads)")
 	return 0
 }
